@@ -53,7 +53,8 @@ NoActM ==
 
 NoOpM == [own |-> "", kind |-> "", a |-> "", m |-> 0, d |-> 0, stNow |-> 0,
           done |-> FALSE, res |-> "", dls |-> <<>>, afterJoin |-> FALSE, mustPanic |-> FALSE, jp |-> FALSE, pend |-> FALSE,
-          acc |-> FALSE]
+          acc |-> FALSE,
+          pair |-> 0]             \* # 0: the same call issued twice in the same situation, on the ActorRef and through a wrapper
 
 NoMsgM == [op |-> 0, a |-> "", handled |-> 0, acc |-> FALSE, preStop |-> FALSE, postStop |-> FALSE,
            before |-> {}, rejected |-> FALSE, replied |-> FALSE, rv |-> 0, repNow |-> 0, tr |-> 0]
@@ -137,6 +138,7 @@ OnOpStart(mon, ev) ==
              /\ (ev.own = ev.a \/ Reaches(mon, ev.a, ev.own, Cardinality(DOMAIN mon.act) + 1))
       m1 == UpdO(mon, ev.op, [own |-> ev.own, kind |-> ev.kind, a |-> ev.a, m |-> ev.m, d |-> ev.d,
                               jp |-> IF "jp" \in DOMAIN ev THEN ev.jp ELSE FALSE,
+                              pair |-> IF "pair" \in DOMAIN ev THEN ev.pair ELSE 0,
                               stNow |-> ev.now, afterJoin |-> A.joined, mustPanic |-> cyc])
       m2 == IF isMsg
               THEN UpdM(m1, ev.m, [op |-> ev.op, a |-> ev.a, before |-> {x \in MsgsTo(mon, ev.a) : mon.msgs[x].acc},
@@ -221,6 +223,10 @@ OnOpEnd(mon, ev) ==
            \cup B(ev.res = "join" /\ ~(op.kind = "askJ" /\ op.jp), "C03", "join error although the spawned task did not fail")
            \cup B(op.kind = "askJ" /\ ev.res = "ok" /\ op.jp, "C03", "ask_join returned a value although the spawned task panicked")
            \cup B(op.kind = "askJ" /\ ev.res = "recv" /\ M.replied, "C03", "ask_join did not return the outcome of the task its handler spawned")
+           \* C16: the same call on the ActorRef and through a type-erased wrapper, issued in the same situation
+           \cup B(op.pair # 0 /\ \E o2 \in DOMAIN mon.ops : /\ o2 # ev.op /\ mon.ops[o2].pair = op.pair
+                                                              /\ mon.ops[o2].done /\ mon.ops[o2].res # ev.res,
+                  "C16", "a call through a type-erased wrapper and the same call on the ActorRef ended differently")
       m1 == [mon EXCEPT !.ops = Put(mon.ops, ev.op, op)]
       m2 == IF isMsg /\ (ev.res = "send" \/ (ev.res = "timeout" /\ op.kind = "tellT"))
               THEN UpdM(m1, op.m, [rejected |-> TRUE]) ELSE m1
@@ -463,7 +469,9 @@ OnQuiescent(mon, ev) ==
               "C15", "wait-for graph not empty although no ask is in flight")
       b6 == UNION {B(mon.act[a].expectRun /\ ~mon.act[a].joined, "C08", "on_run not polled again after Ok(true)")
                    : a \in DOMAIN mon.act}
-  IN  AddBad(mon, b1 \cup b2 \cup b3 \cup b4 \cup b5 \cup b6)
+      b7 == UNION {B(OpOf(mon, o).pair # 0 /\ \E o2 \in DOMAIN mon.ops : mon.ops[o2].pair = OpOf(mon, o).pair /\ mon.ops[o2].done,
+                     "C16", "one call of a wrapper / ActorRef pair is still pending although the other has returned") : o \in pend}
+  IN  AddBad(mon, b1 \cup b2 \cup b3 \cup b4 \cup b5 \cup b6 \cup b7)
 
 SlowUs == 3000   \* a handler told to be slow holds its thread for at least this long (wall clock, microseconds)
 
@@ -526,6 +534,7 @@ InvC12(mon) == mon.crashed => mon.bad = {}
 InvC13(mon) == Holds(mon, "C13")
 InvC14(mon) == Holds(mon, "C14")
 InvC15(mon) == Holds(mon, "C15")
+InvC16(mon) == Holds(mon, "C16")
 InvC17(mon) == Holds(mon, "C17")
 InvC19(mon) == Holds(mon, "C19")
 InvC20(mon) == Holds(mon, "C20")
